@@ -40,8 +40,12 @@ CODES = [
     ('>h', '>h', False), ('>ha', '>ha', False),
     ('un', 'un', True), ('ul', 'ul', True), ('credentials', 'credentials', True),
 ]
-MODS = [('q', '"'), ('m', '['), ('u', '#'), ('s', '/'), ('d', '')]
-MODNAME = {'q': 'quoted-string(")', 'm': 'mime-blob([)', 'u': 'url(#)', 's': 'shell(/)', 'd': 'default'}
+# Q and M: no modifier on the %code, but the code stands between literal "..." / [...] in the format text, which makes the
+# logformat parser select the quoted-string / mime-blob encoding for it (this is how the documented definitions of the
+# built-in formats, e.g.  "%{User-Agent}>h",  are meant)
+MODS = [('q', '"'), ('m', '['), ('u', '#'), ('s', '/'), ('d', ''), ('Q', ''), ('M', '')]
+MODNAME = {'q': 'quoted-string(%")', 'm': 'mime-blob(%[)', 'u': 'url(%#)', 's': 'shell(%/)', 'd': 'default',
+           'Q': 'quoted-string("%code")', 'M': 'mime-blob([%code])'}
 
 
 def main_spec():
@@ -72,6 +76,10 @@ def format_text(spec):
             out.append('%%#%s' % code)
         elif kind == 's':
             out.append('%%/%s' % code)
+        elif kind == 'Q':
+            out.append('"%%%s"' % code)
+        elif kind == 'M':
+            out.append('[%%%s]' % code)
         else:
             out.append('%%%s' % code)
     return ' '.join(out)
@@ -236,7 +244,7 @@ def lex_line(line, spec):
             end = pos + len(lit)
             raw = None
             dec = None
-        elif kind == 'q' or (kind == 's' and line[pos:pos + 1] == b'"'):
+        elif kind in ('q', 'Q') or (kind == 's' and line[pos:pos + 1] == b'"'):
             if line[pos:pos + 1] != b'"':
                 raise fail('expected opening quote')
             i = pos + 1
@@ -247,10 +255,10 @@ def lex_line(line, spec):
             raw = line[pos + 1:i]
             end = i + 1
             try:
-                dec = unq_quoted(raw) if kind == 'q' else unq_shell(raw, True)
+                dec = unq_quoted(raw) if kind in ('q', 'Q') else unq_shell(raw, True)
             except Bad as e:
                 raise fail(str(e))
-        elif kind == 'm':
+        elif kind in ('m', 'M'):
             if line[pos:pos + 1] != b'[':
                 raise fail('expected opening bracket')
             i = line.find(b']', pos + 1)
@@ -304,11 +312,11 @@ BUILTIN = {
                           rb'(?P<code>[A-Z_]+):(?P<hier>[A-Z_]+)' + _MIME + rb'$'), True),
     # combined: ... %<st "%{Referer}>h" "%{User-Agent}>h" %Ss:%Sh
     'combined': (re.compile(rb'^(?P<client>\S+) - (?P<user>\S+) \[[^\]]+\] "(?P<method>\S+) (?P<url>\S+) [A-Z]+/\d+\.\d+" (?P<status>\d+) (?P<size>\d+) '
-                            rb'"(?P<referer>[^"]*)" "(?P<ua>[^"]*)" (?P<code>[A-Z_]+):(?P<hier>[A-Z_]+)' + _MIME + rb'$'), True),
+                            rb'"(?P<referer>(?:[^"\\]|\\.)*)" "(?P<ua>(?:[^"\\]|\\.)*)" (?P<code>[A-Z_]+):(?P<hier>[A-Z_]+)' + _MIME + rb'$'), True),
     # referrer: %ts.%03tu %>a %{Referer}>h %ru
     'referrer': (re.compile(rb'^ *\d+\.\d{3} (?P<client>\S+) (?P<referer>\S+) (?P<url>\S+)$'), False),
     # useragent: %>a [%tl] "%{User-Agent}>h"
-    'useragent': (re.compile(rb'^(?P<client>\S+) \[[^\]]+\] "(?P<ua>[^"]*)"$'), False),
+    'useragent': (re.compile(rb'^(?P<client>\S+) \[[^\]]+\] "(?P<ua>(?:[^"\\]|\\.)*)"$'), False),
 }
 
 # ------------------------------------------------------------------ hostile values and cases
@@ -730,15 +738,21 @@ def run_case(w, case):
                 continue
             g = mt.groupdict()
             checks = []
-            if 'user' in g and exp['un'][0] == 'exact':
-                try:
+            try:
+                if 'user' in g and exp['un'][0] == 'exact':
                     checks.append(('user', unq_mime(g['user']), exp['un'][1], 'exact'))
-                except Bad as e:
-                    bad('builtin:%s:user-encoding:pos=%s:h=%s' % (name, case['pos'], hname(case)), 'user field %r of the %s record: %s' % (g['user'], name, e))
-            if 'ua' in g and exp['h:User-Agent'][0] == 'exact':
-                checks.append(('ua', g['ua'], exp['h:User-Agent'][1], 'pct'))
-            if 'referer' in g and exp['h:Referer'][0] == 'exact':
-                checks.append(('referer', g['referer'], exp['h:Referer'][1], 'pct'))
+                # quoted fields: the quoted-string encoding that the documented definition ("%{User-Agent}>h") selects
+                if 'ua' in g and exp['h:User-Agent'][0] == 'exact':
+                    checks.append(('ua', unq_quoted(g['ua']), exp['h:User-Agent'][1], 'exact'))
+                if 'referer' in g and exp['h:Referer'][0] == 'exact':
+                    if name == 'referrer':      # bare field: pass-through URL encoding
+                        check_default(g['referer'])
+                        checks.append(('referer', g['referer'], exp['h:Referer'][1], 'pct'))
+                    else:
+                        checks.append(('referer', unq_quoted(g['referer']), exp['h:Referer'][1], 'exact'))
+            except Bad as e:
+                bad('builtin:%s:pos=%s' % (name, case['pos']), 'field of the built-in %s record is not a legal encoding: %s: %r' % (name, e, line[:300]))
+                continue
             if 'method' in g and exp['rm'][0] == 'exact':
                 checks.append(('method', g['method'], exp['rm'][1], 'pct'))
             if 'url' in g and exp['ru'][0] == 'pct':
@@ -748,8 +762,8 @@ def run_case(w, case):
                 if want in (b'', b'-') and got == b'-':
                     ok = True
                 if not ok:
-                    bad('builtin:%s:%s-value:pos=%s:h=%s' % (name, what, case['pos'], hname(case)),
-                        '%s field of the built-in %s record is %r, the client sent %r' % (what, name, got[:200], want[:200]))
+                    bad('builtin:%s:pos=%s' % (name, case['pos']),
+                        '%s field of the built-in %s record decodes to %r, the client sent %r: %r' % (what, name, got[:200], want[:200], line[:300]))
     return res
 
 
@@ -852,7 +866,7 @@ RULE = ('E3 (real squid): one transaction per case; 10 client-controlled positio
         'string of length 2..d over the 12-symbol core alphabet CR LF " \\ ] [ SP TAB % 0xFF 0x01 n, d = 2 (quick; 3 for header value and '
         'user name) or 3 (thorough; 4 for header value and user name)} x uri_whitespace {strip (everything), encode/chop/allow/deny (URL '
         'positions; thorough also strings of length 2..3)}; plus 42 batches of 2/3/5 transactions on one connection (sequential and '
-        'pipelined); each transaction is logged with 21 %codes x {" [ # / default} in one custom format, as-is in a second one and by the '
+        'pipelined); each transaction is logged with 21 %codes x {%" %[ %# %/ default "%code" [%code]} in one custom format, as-is in a second one and by the '
         '5 built-in formats (log_mime_hdrs on). E1 (Format::assemble + quoting functions): every string of length <= 4 (thorough 5) over '
         '14 hostile symbols, every 1- and 2-byte string (thorough: 3-byte strings behind 12 first bytes), 270 long values around the '
         '512/1024-byte scratch-buffer limits. non-trivial = E3 transactions whose main record carried at least 10 non-dash %code groups '
